@@ -353,6 +353,128 @@ def bwperim (m : Mode) (shape : List Nat) (bw : List Int) (offs : List (List Int
 def bwperimSpec (m : Mode) (shape : List Nat) (bw : List Int) (offs : List (List Int)) : List Bool :=
   (bw.zip (bordersSpec m shape bw offs)).map fun x => x.1 ≠ 0 && x.2
 
+/-! ### round 4: the Python wrappers around the kernels (`bbox.py`, `labeled.py`, `histogram.py`) -/
+
+/-- `bbox(img, border=b)` (`bbox.py`): `if border:` the lower ends become `max(lo - b, 0)` and the upper ends
+    `hi + b` — the upper end is **not** clipped to the image (slicing clips it later); `b` may be negative -/
+def bboxBorderGo (b : Int) : List Int → List Int
+  | lo :: hi :: rest => max (lo - b) 0 :: (hi + b) :: bboxBorderGo b rest
+  | e => e
+
+def bboxBorder (ext : List Int) (b : Int) : List Int := if b = 0 then ext else bboxBorderGo b ext
+
+/-- one end of the Python slice `slice(s, e)` on an axis of length `n`: a negative index counts from the end,
+    everything is clipped into `[0, n]` -/
+def sliceBound (n : Nat) (v : Int) : Nat := if v < 0 then (v + (n : Int)).toNat else min v.toNat n
+
+/-- is index `x` selected by `slice(s, e)` on an axis of length `n`? -/
+def sliceSel (n : Nat) (s e : Int) (x : Nat) : Bool := sliceBound n s ≤ x && x < sliceBound n e
+
+/-- `img[tuple(slice(s, e) for s, e in box)]` (`bbox(…, as_slice=True)` + the indexing of `croptobbox`):
+    the shape of the view and the flat indices (C order) of the pixels it shows, in the view's own C order -/
+def cropTo (shape : List Nat) (box : List Int) : List Nat × List Nat :=
+  let nd := shape.length
+  let outShape := (List.range nd).map fun d =>
+    sliceBound (shape.getD d 0) (box.getD (2 * d + 1) 0) - sliceBound (shape.getD d 0) (box.getD (2 * d) 0)
+  (outShape, (List.range (shapeSize shape)).filter fun i =>
+    (List.range nd).all fun d =>
+      sliceSel (shape.getD d 0) (box.getD (2 * d) 0) (box.getD (2 * d + 1) 0) ((unravel shape i).getD d 0))
+
+/-- specification of `croptobbox(img, border=b)` for `b ≥ 0` and a box `[lo_d, hi_d)` inside the image:
+    exactly the pixels within `b` of the box on every axis, clipped to the image -/
+def cropSpec (shape : List Nat) (box : List Int) (b : Int) : List Nat :=
+  (List.range (shapeSize shape)).filter fun i =>
+    (List.range shape.length).all fun d =>
+      let x : Int := ((unravel shape i).getD d 0 : Nat)
+      decide (box.getD (2 * d) 0 - b ≤ x) && decide (x < box.getD (2 * d + 1) 0 + b)
+
+/-- `labeled_sum(array, labeled, minlength)`: `max(labeled.max() + 1, minlength)` output slots
+    (`minlength = none` is Python's `None`) -/
+def foldLen (labels : List Int) (minlength : Option Int) : Nat :=
+  match minlength with
+  | none => (maxOf labels + 1).toNat
+  | some m => (max (maxOf labels + 1) m).toNat
+
+/-- `labeled_size`: `fullhistogram(labeled.astype(np.uint32))` — labels are reduced modulo 2^32 and a bool
+    map goes through the counting kernel (not through the `[zeros, ones]` shortcut) -/
+def labeledSize (vals : List Int) : List Nat := fullHistogram false (vals.map (· % 4294967296))
+
+/-- dtypes `fullhistogram` accepts: bool by the wrapper's shortcut, the unsigned types by the kernel's
+    switch; signed types pass `_verify_is_integer_type` and are rejected by the kernel (`Cannot handle type.`) -/
+def histAccepts (dt : String) : Bool := ["b1", "u8", "u16", "u32", "u64"].contains dt
+
+/-- `is_same_labeling` of the wrapper: maps of different shapes are never the same labeling -/
+def isSameLabelingShaped (s0 s1 : List Nat) (a b : List Int) : Bool := s0 == s1 && isSameLabeling a b
+def sameSpecShaped (s0 s1 : List Nat) (a b : List Int) : Bool := s0 == s1 && sameSpec a b
+
+/-- `remove_regions_where(labeled, conditions)`: `regions, = np.where(conditions)`; `remove_regions` -/
+def removeRegionsWhere (labels conds : List Int) : List Int :=
+  removeRegions labels (((List.range conds.length).filter fun i => conds.getD i 0 ≠ 0).map fun (i : Nat) => (i : Int))
+
+/-- specification: a pixel is zeroed iff `conditions[label]` exists and is true -/
+def removeRegionsWhereSpec (labels conds : List Int) : List Int :=
+  labels.map fun v => if 0 ≤ v && v.toNat < conds.length && conds.getD v.toNat 0 ≠ 0 then 0 else v
+
+/-! #### `labeled.perimeter` (2-D): `bwperim`, convolution with the 3×3 mask `[[10,2,10],[2,1,2],[10,2,10]]`
+    (mode `reflect`), `fullhistogram`, dot product of the first 34 bins with the weight table -/
+
+def nb9 : List (List Int) := [[-1, -1], [-1, 0], [-1, 1], [0, -1], [0, 0], [0, 1], [1, -1], [1, 0], [1, 1]]
+
+def perimMagic (k : List Int) : Nat :=
+  if k.getD 0 0 = 0 ∧ k.getD 1 0 = 0 then 1 else if k.getD 0 0 = 0 ∨ k.getD 1 0 = 0 then 2 else 10
+
+/-- `mh.convolve(perim.astype(uint8), _perimeter_magic)`: default mode `reflect` through `fix_offset`;
+    the mask is symmetric, so the flip of the convolution is invisible; sums ≤ 49 fit `uint8` -/
+def perimTerm (shape : List Nat) (perim : List Bool) (i : Nat) (k : List Int) : Nat :=
+  match fixPos .reflect shape (addPos (unravelI shape i) k) with
+  | some q => if perim.getD (ravelI shape q) false then perimMagic k else 0
+  | none => 0
+
+def perimConvAt (shape : List Nat) (perim : List Bool) (i : Nat) : Nat :=
+  (nb9.map (perimTerm shape perim i)).foldl (· + ·) 0
+
+def perimConv (shape : List Nat) (perim : List Bool) : List Nat :=
+  (List.range perim.length).map (perimConvAt shape perim)
+
+/-- class of a histogram bin in `_perimeter_values`: 1 ↦ weight 1, 2 ↦ √2, 3 ↦ (1+√2)/2, 0 ↦ weight 0 -/
+def perimClass (v : Nat) : Nat :=
+  if [5, 7, 15, 17, 25, 27].contains v then 1 else if [21, 33].contains v then 2
+  else if [13, 23].contains v then 3 else 0
+
+/-- `perimeter`: how many pixels enter the dot product with weight 1, √2 and (1+√2)/2
+    (`histogram[:34]` against the table; the result is `n1 + n2·√2 + n3·(1+√2)/2` in double) -/
+def perimeterCounts (m : Mode) (shape : List Nat) (bw : List Int) (offs : List (List Int)) : List Nat :=
+  let conv := perimConv shape (bwperim m shape bw offs)
+  let hist := fullHistogram false (conv.map fun (v : Nat) => (v : Int))
+  let size := min 34 hist.length
+  [1, 2, 3].map fun c =>
+    (((List.range size).filter fun v => perimClass v == c).map fun v => hist.getD v 0).foldl (· + ·) 0
+
+/-- specification: classify every perimeter pixel by its numbers `a` of edge neighbours and `d` of diagonal
+    neighbours on the perimeter (neighbours by the mathematical `reflect` rule): weight 1 for `a ∈ {2,3}, d ≤ 2`;
+    √2 for `(a, d) ∈ {(0,2), (1,3)}`; (1+√2)/2 for `a = 1, d ∈ {1,2}`; everything else weight 0 -/
+def perimClassAD (c a d : Nat) : Nat :=
+  if c = 0 then 0
+  else if (a = 2 ∨ a = 3) ∧ d ≤ 2 then 1
+  else if (a = 0 ∧ d = 2) ∨ (a = 1 ∧ d = 3) then 2
+  else if a = 1 ∧ (d = 1 ∨ d = 2) then 3 else 0
+
+def perimAt (shape : List Nat) (perim : List Bool) (i : Nat) (k : List Int) : Nat :=
+  match specPos .reflect shape (addPos (unravelI shape i) k) with
+  | some q => if perim.getD (ravelI shape q) false then 1 else 0
+  | none => 0
+
+def perimCls (shape : List Nat) (perim : List Bool) (i : Nat) : Nat :=
+  perimClassAD (perimAt shape perim i [0, 0])
+    (perimAt shape perim i [-1, 0] + perimAt shape perim i [0, -1] + perimAt shape perim i [0, 1] +
+      perimAt shape perim i [1, 0])
+    (perimAt shape perim i [-1, -1] + perimAt shape perim i [-1, 1] + perimAt shape perim i [1, -1] +
+      perimAt shape perim i [1, 1])
+
+def perimeterCountsSpec (m : Mode) (shape : List Nat) (bw : List Int) (offs : List (List Int)) : List Nat :=
+  let perim := bwperimSpec m shape bw offs
+  [1, 2, 3].map fun c => ((List.range perim.length).filter fun i => perimCls shape perim i == c).length
+
 /-! ### driver entry -/
 
 def modeOf (s : String) : Mode :=
@@ -370,6 +492,9 @@ def handle (a : Args) : String :=
     let op := a.str "op"
     let dtn := a.str "dt"
     let cnt := (List.range n).map fun (l : Nat) => (valuesOf (data.zip labels) (l : Int)).length
+    -- the length the wrapper allocates (`labeled.max() + 1`, `minlength`); `n` is what the harness measured
+    let ml : Option Int := if a.str "minlength" == "-" || !a.has "minlength" then none else some (a.int "minlength")
+    let len := foldLen labels ml
     if dtn == "f32" || dtn == "f64" then
       let scale := Float.ofNat (a.nat "scale" 1)
       let px := (data.map fun k => Float.ofInt k / scale).zip labels
@@ -381,7 +506,7 @@ def handle (a : Args) : String :=
       -- exact specification on the scaled integers
       let ipx := data.zip labels
       let spec := (foldSpec false op n ipx).map fun (v : Int) => Float.ofInt v / scale
-      s!"model={showFloats model.toList} spec={showFloats spec} cnt={showNats cnt}"
+      s!"model={showFloats model.toList} spec={showFloats spec} cnt={showNats cnt} len={len}"
     else
       let dt := DT.ofName dtn
       let px := data.zip labels
@@ -390,7 +515,11 @@ def handle (a : Args) : String :=
         | "max" => maxInt dt n px
         | _ => minInt dt n px
       let spec := foldSpec dt.isBool op n px
-      s!"model={showInts model.toList} spec={showInts spec} cnt={showNats cnt}"
+      -- the slots where oracle and model are comparable: the hypotheses of `C13_labeled_sum_oracle_eq_model`
+      -- (`dt.InRange` of the exact sum) and `C13_labeled_max_min_oracle_eq_model` (a non-empty label), evaluated here
+      let ok := if op == "sum" then spec.map fun (v : Int) => decide (dt.lo ≤ v ∧ v ≤ dt.hi)
+        else cnt.map fun c => decide (0 < c)
+      s!"model={showInts model.toList} spec={showInts spec} cnt={showNats cnt} len={len} ok={showBools ok}"
   | "hist" =>
     let h := fullHistogram (a.str "dt" == "b1") data
     s!"model={showNats h} spec={showNats (countSpec data h.length)}"
@@ -444,6 +573,35 @@ def handle (a : Args) : String :=
     let offs := C03.offsets (a.nats "bshape") (a.ints "bc").toArray
     let m := modeOf (a.str "mode")
     s!"model={showBools (bwperim m shape labels offs)} spec={showBools (bwperimSpec m shape labels offs)}"
+  | "bboxb" =>
+    -- bbox(img, border=b[, as_slice=True]) and croptobbox(img, border=b)
+    let b := a.int "border"
+    let raw := match shape with
+      | [n0, n1] => if a.nat "fast" != 0 then bboxFast n0 n1 data else bboxGeneric shape data
+      | _ => bboxGeneric shape data
+    let box := bboxBorder raw b
+    let crop := cropTo shape box
+    let sl := (List.range shape.length).flatMap fun d =>
+      [sliceBound (shape.getD d 0) (box.getD (2 * d) 0), sliceBound (shape.getD d 0) (box.getD (2 * d + 1) 0)]
+    let spec := match bboxSpec shape data with
+      | some bx => if b ≥ 0 then showNats (cropSpec shape bx b) else "none"
+      | none => "none"
+    s!"box={showInts box} slices={showNats sl} cshape={showNats crop.1} cidx={showNats crop.2} spec={spec}"
+  | "size" =>
+    let h := labeledSize data
+    s!"model={showNats h} spec={showNats (countSpec data h.length)}"
+  | "histok" => s!"accept={showBools [histAccepts (a.str "dt")]}"
+  | "same2" =>
+    let b := a.ints "labels2"
+    let s2 := a.nats "shape2"
+    s!"model={showBools [isSameLabelingShaped shape s2 labels b]} spec={showBools [sameSpecShaped shape s2 labels b]}"
+  | "rmwhere" =>
+    let c := a.ints "conds"
+    s!"model={showInts (removeRegionsWhere labels c)} spec={showInts (removeRegionsWhereSpec labels c)}"
+  | "perimeter" =>
+    let offs := C03.offsets (a.nats "bshape") (a.ints "bc").toArray
+    let m := modeOf (a.str "mode")
+    s!"model={showNats (perimeterCounts m shape labels offs)} spec={showNats (perimeterCountsSpec m shape labels offs)}"
   | k => s!"error=unknown-kind-{k}"
 
 end Mahotas.C13
